@@ -181,6 +181,12 @@ fn cli_slice(cfg: &Cfg, sink: &Sink) -> u64 {
         (vec!["-d", "keep-sorted", "-d", "line-pattern", "-d", "check-lua"], Ok(vec!["keep-unique", "line-count"]), "-d every error-severity validator"),
         (vec!["-e", "check-ai"], Ok(vec![]), "-e validator without blocks"),
         (vec!["-d", "affects", "-d", "check-ai"], Ok(all.to_vec()), "-d validators without blocks"),
+        (vec!["-d", "line-count", "-d", "line-count", "-d", "line-count", "-d", "line-count", "-d", "line-count", "-d", "line-count", "-d", "line-count"], Ok(vec!["keep-sorted", "keep-unique", "line-pattern", "check-lua"]), "-d the same validator seven times (as many flags as validators)"),
+        (vec!["-d", "line-count", "-d", "keep-unique", "-d", "line-count", "-d", "keep-unique", "-d", "line-count", "-d", "keep-unique", "-d", "line-count"], Ok(vec!["keep-sorted", "line-pattern", "check-lua"]), "-d two validators over seven flags"),
+        (vec!["-e", "keep-sorted", "-e", "keep-sorted", "-e", "keep-sorted", "-e", "keep-sorted", "-e", "keep-sorted", "-e", "keep-sorted", "-e", "keep-sorted"], Ok(vec!["keep-sorted"]), "-e the same validator seven times"),
+        (vec!["-d", "keep-sorted", "list", "-e", "line-count"], Err(()), "both flags, one before and one after `list`"),
+        (vec!["-e", "keep-sorted", "list", "-d", "line-count"], Err(()), "both flags around `list`, the other way"),
+        (vec!["list", "-e", "keep-sorted", "-d", "line-count"], Err(()), "both flags after `list`"),
         (vec!["-e", "keep-sorted", "-d", "line-count"], Err(()), "both flags"),
         (vec!["-d", "line-count", "-e", "line-count"], Err(()), "both flags, same validator"),
         (vec!["-d", "keep-sort"], Err(()), "unknown validator"),
@@ -253,7 +259,7 @@ pub fn run(cfg: &Cfg, sink: &Arc<Sink>) -> Report {
         std::env::set_var("BLOCKWATCH_AI_API_URL", &FakeAi::global().url);
         std::env::set_var("BLOCKWATCH_AI_API_KEY", "k");
     }
-    let mut report = Report::new("cases = (subset of the seven validators that have a violating block: all 128) × layout {one block per validator in one file, the same blocks reversed over two files, two rules per block} × flag {--disable, --enable} × flag set (quick: every subset of size ≤2 and every complement of size ≤1, all 128 subsets on the repository where all seven validators fire; thorough: all 128 everywhere) × every block-map order; AI blocks talk to a recording fake endpoint, Lua blocks log their calls; oracle: the diagnostic codes equal the unrestricted codes minus (-d) / restricted to (-e) the named validators, the status follows what remains, and a switched-off validator makes no AI request and no Lua call; plus 19 flag spellings through the real CLI (repetition = union, both flags / unknown / padded / comma names rejected before anything is validated); non-trivial = every case with at least one block");
+    let mut report = Report::new("cases = (subset of the seven validators that have a violating block: all 128) × layout {one block per validator in one file, the same blocks reversed over two files, two rules per block} × flag {--disable, --enable} × flag set (quick: every subset of size ≤2 and every complement of size ≤1, all 128 subsets on the repository where all seven validators fire; thorough: all 128 everywhere) × every block-map order; AI blocks talk to a recording fake endpoint, Lua blocks log their calls; oracle: the diagnostic codes equal the unrestricted codes minus (-d) / restricted to (-e) the named validators, the status follows what remains, and a switched-off validator makes no AI request and no Lua call; plus 25 flag spellings through the real CLI (repetition = union — also as many repetitions as there are validators —, both flags on either side of `list`, both flags / unknown / padded / comma names rejected before anything is validated); non-trivial = every case with at least one block");
     report.assume("which validator fires on which block is fixed by construction");
     let thorough = cfg.tier == crate::core::Tier::Thorough;
     let mut cases = Vec::new();
@@ -276,7 +282,7 @@ pub fn run(cfg: &Cfg, sink: &Arc<Sink>) -> Report {
         report.cap("quick: flag sets of size 3–5 only on the repository where all seven validators fire");
     }
     let n = cli_slice(cfg, sink);
-    report.phase(Phase { name: "flag spellings through the real CLI".into(), states: n, transitions: n, max_depth: 1, exhaustive: true, bound: "19 flag spellings".into() });
+    report.phase(Phase { name: "flag spellings through the real CLI".into(), states: n, transitions: n, max_depth: 1, exhaustive: true, bound: "25 flag spellings, each accepted one also in diff mode with a non-matching path argument".into() });
     report
 }
 
